@@ -222,6 +222,19 @@ def run(ctx):
                               [('N', 'N', 'N'), ('N', 'RA', 'N', 'C'), ('N', 'X', 'N', 'X', 'N'), ('N',)]))
                 nrep += 1
     ctx.cov['repeated_ext_header_archives'] = nrep
+    # archives that end anywhere - inside a header, an extended header chain, member data: every cut offset of small archives
+    # of every header level, walked to the end (and with every allocation failing in turn)
+    ncut = 0
+    for name, members in c15.fixed_archives(rnd)[:(2 if ctx.tier == 'quick' else 4)] + [('levels-0-3', [arc.file_member(rnd, '-lh5-', b'file%d' % l, size=20, level=l, path=b'dir/') for l in (0, 1, 2, 3)])]:
+        A = arc.archive(members)
+        step = 1 if ctx.tier == 'thorough' or len(A) < 260 else 2
+        for cut in range(1, len(A), step):
+            h = []
+            for _ in range(len(members) + 2):
+                h += ['N', ('C', 'X', 'RA')[cut % 3]]
+            items.append(('%s@cut%d' % (name, cut), A[:cut], [tuple(h)]))
+            ncut += 1
+    ctx.cov['truncated_archives'] = ncut
     ncoll = 0
     for name, members in collision_archives(rnd, ctx.tier):
         full = []
@@ -253,7 +266,7 @@ def run(ctx):
     ctx.cov['exhaustive'] = True
     ctx.cov['exhaustive_subspace'] = 'for every (archive, history) run: every k in 1..N where N = allocations made by the library in the fault-free run'
     ctx.cov['rule'] = ('(archive, history, policy, stream kind, k) tuples; histories obey the C15 side conditions and include every prefix of full '
-                       'walks (abandon anywhere; headers repeating an extended header of the same type two or three times; archives whose entries collide on disk - the same name twice or as file/directory/dangerous/safe symlink - so '
+                       'walks (abandon anywhere; archives cut at every offset; headers repeating an extended header of the same type two or three times; archives whose entries collide on disk - the same name twice or as file/directory/dangerous/safe symlink - so '
                        'that extract calls find unexpected things in place, also while a re-presented directory or deferred symlink is current), extraction with header paths '
                        'and explicit names; k enumerated over all allocations; distinct by the whole tuple; non-trivial = history longer than one op '
                        'or any injected run')
